@@ -125,7 +125,7 @@ impl Scenario for C12 {
         "exploration"
     }
     fn rule(&self) -> String {
-        "Line histories over the property's alphabet (times {0, 0+eps, 10, 10, 20, -5, ...}, timing/inherited, beat lengths negative/zero/huge/NaN/out of limits, kiai/omit flags, banks 0..4, volumes -5..150, trailing fields omitted, comments) in all four modes and four [General] defaults: (1) every sequence up to length 3 (quick) / 5 (thorough) over a 12-line alphabet x 4 modes — enumerated; (2) seeded histories of length 0..24 with reorder / duplicate / drop perturbations; (3) the timing sections of the bundled maps under the same perturbations. Driven through the line API of TimingPointsState, decode::<TimingPoints> and decode::<Beatmap>. The four lists must equal the legacy model bit for bit and be strictly increasing and clamped. Also: integer fields at the edges of every 8/16/32/64-bit width and Mode values that are not a mode. Round 8: records of other sections between timing-point lines; decode::<HitObjects>. distinct_nontrivial = distinct plan hashes with >= 2 lines.".into()
+        "Line histories over the property's alphabet (times {0, 0+eps, 10, 10, 20, -5, ...}, timing/inherited, beat lengths negative/zero/huge/NaN/out of limits, kiai/omit flags, banks 0..4, volumes -5..150, trailing fields omitted, comments) in all four modes and four [General] defaults: (1) every sequence up to length 3 (quick) / 5 (thorough) over a 12-line alphabet x 4 modes — enumerated; (2) seeded histories of length 0..24 with reorder / duplicate / drop perturbations; (3) the timing sections of the bundled maps under the same perturbations. Driven through the line API of TimingPointsState, decode::<TimingPoints> and decode::<Beatmap>. The four lists must equal the legacy model bit for bit and be strictly increasing and clamped. Also: integer fields at the edges of every 8/16/32/64-bit width and Mode values that are not a mode. Round 8: records of other sections between timing-point lines; decode::<HitObjects>. Round 13: header look-alikes (!raw lines) between timing-point lines. distinct_nontrivial = distinct plan hashes with >= 2 lines.".into()
     }
     fn assumptions(&self) -> Vec<String> {
         vec![
